@@ -559,6 +559,33 @@ func (fr *frame) intrinsic(v *ssa.Call, res, name string, cc *ssa.CallCommon, st
 	case strings.HasPrefix(name, "(*sync.Map)."):
 		smv, smd := fc.syncMapComps()
 		m := arg(0)
+		// rely/guarantee pass: before this step other goroutines may have changed the sync.Maps in any way the rely allows
+		var rgPre *State
+		rgEnv := func(pre, post *State) *Env {
+			env := fr.baseEnv(post)
+			env.old = pre
+			blk := fr.fn.Blocks[0]
+			if v != nil {
+				blk = v.Block()
+			}
+			env.lookup = func(nm string, s *State) (TV, bool) {
+				if tv, ok := fr.paramLookup(nm, s); ok {
+					return tv, true
+				}
+				return fr.resolveName(nm, blk, false, s, nil)
+			}
+			return env
+		}
+		if fc.rgMode && fr.contract != nil && len(fr.contract.Guarantee) > 0 && !fr.inlined {
+			before := st.clone()
+			st.comp[smv] = fc.freshConst(fr.prefix+"rg_SM_V", fc.compSort[smv])
+			st.comp[smd] = fc.freshConst(fr.prefix+"rg_SM_D", fc.compSort[smd])
+			env := rgEnv(before, st)
+			for _, c := range fr.contract.Rely {
+				fc.fact("", "(=> %s %s)", R, env.trAssume(c.E))
+			}
+			rgPre = st.clone()
+		}
 		V, D := fc.lookup(st, smv), fc.lookup(st, smd)
 		// values already in the map were allocated before this call
 		fc.P.needTagof()
@@ -581,6 +608,18 @@ func (fr *frame) intrinsic(v *ssa.Call, res, name string, cc *ssa.CallCommon, st
 			fc.fact("", "(= %s_r1 (select (select %s %s) %s))", res, D, m, arg(1))
 			fc.fact("", "(= %s_r0 (ite %s_r1 (select (select %s %s) %s) 0))", res, res, V, m, arg(1))
 			st.comp[smd] = fmt.Sprintf("(store %s %s (store (select %s %s) %s false))", D, m, D, m, arg(1))
+		}
+		if rgPre != nil {
+			env := rgEnv(rgPre, st)
+			site := ""
+			if v != nil && v.Pos().IsValid() {
+				p := fr.fn.Prog.Fset.Position(v.Pos())
+				site = fmt.Sprintf("%s:%d", shortFile(p.Filename), p.Line)
+			}
+			for _, c := range fr.contract.Guarantee {
+				g := env.tr(c.E)
+				fc.obls = append(fc.obls, &Obl{Func: fc.key, Kind: "guarantee", Label: c.Label, Site: site, NFacts: len(fc.facts), Path: R, Goal: g.T, Text: c.Text})
+			}
 		}
 	case strings.HasPrefix(name, "(*sync."):
 		// locks are no-ops in the sequential model
